@@ -128,7 +128,7 @@ if __name__ == '__main__':
         else: k = int(args[1])
         args = args[2:]
     props = args or sorted(ANCHORS)
-    rnd = random.Random(20261003); jobs = []
+    rnd = random.Random(int(os.environ.get('MUT_SEED', '20261003'))); jobs = []
     for pid in props:
         cands = []
         for path, fname in ANCHORS[pid]:
@@ -145,7 +145,7 @@ if __name__ == '__main__':
             print(tag, res['property'], f"{res['file']}:{res['line']}", res['operator'], '|', res.get('old', '')[:70], '=>', res['new'][:70], '|', (res.get('violations') or res.get('inconclusive') or [''])[0][:80], flush=True)
     os.makedirs(os.path.join(V, 'out'), exist_ok=True)
     prev = []
-    pth = os.path.join(V, 'out', 'mutation_selftest.json')
+    pth = os.path.join(V, 'out', 'mutation_selftest' + ('_' + os.environ['MUT_SEED'] if os.environ.get('MUT_SEED') else '') + '.json')
     json.dump(results, open(pth, 'w'), indent=1)
     built = [r for r in results if r.get('builds')]
     print(f"built {len(built)}/{len(results)}; killed {sum(1 for r in built if r.get('exit') == 1)}, survived {sum(1 for r in built if r.get('exit') == 0)}, inconclusive {sum(1 for r in built if r.get('exit') == 2)}")
